@@ -1,6 +1,10 @@
 (* ReplaceFacts.v — C17 search-and-replace at paragraph level, C16 re-extraction
    after save (facts about model/Save.v on top of FrameFacts / SaveFacts).
 
+   (fix D33: replace_node replaces only in w:t / m:t (Merge.is_text_like);
+   [hit] = the needle occurs in the element's own text, [vhit] = hit in a
+   text-like element = replace_node_cases' condition; under repl_ok the two
+   agree (repl_ok_vhit, vhit_miss).)
    0. open_emit / emit_AE: an explicit unfolding equation for FrameFacts.emit at
       an inline element.
    1. emit_replaced_text_node (w:t and m:t), emit_replaced_w_t.
@@ -203,6 +207,29 @@ Definition is_text_tag (e : einfo) : bool :=
 Definition hit (old : str) (e : einfo) : bool :=
   match e_text e with Some (c :: tx) => contains old (c :: tx) | _ => false end.
 
+(* w:t / m:t are exactly the elements whose text replace_node looks at (fix
+   D33: Merge.is_text_like, the elements whose text the extraction shows) *)
+Lemma is_text_like_is_text_tag e : is_text_like e = is_text_tag e.
+Proof.
+  unfold is_text_like, is_text_tag, text_tags. cbn [mem_str]. rewrite orb_false_r. reflexivity.
+Qed.
+
+Lemma is_text_tag_like e : is_text_tag e = true -> is_text_like e = true.
+Proof. rewrite is_text_like_is_text_tag. exact (fun H => H). Qed.
+
+(* the needle occurs in text that the extraction shows: only there does
+   replace_node replace (text of w:delText, w:instrText, ... is left alone) *)
+Definition vhit (old : str) (e : einfo) : bool := (hit old e && is_text_like e)%bool.
+
+Lemma vhit_miss old e : hit old e = false -> vhit old e = false.
+Proof. unfold vhit. intros ->. reflexivity. Qed.
+
+Lemma vhit_text_tag old e : hit old e = true -> is_text_tag e = true -> vhit old e = true.
+Proof. unfold vhit. intros -> H. rewrite (is_text_tag_like _ H). reflexivity. Qed.
+
+Lemma vhit_invisible old e : is_text_like e = false -> vhit old e = false.
+Proof. unfold vhit. intros ->. apply andb_false_r. Qed.
+
 (* the tokens of the replacement text: one TTxt per character of each line,
    the lines separated by the "\n" of a w:br *)
 Definition repl_toks (old new tx : str) : list tok :=
@@ -278,7 +305,7 @@ Theorem emit_replaced_text_node : forall v path i old new e c tx wuri,
        = join [10] (split_nl (replace old new (c :: tx))).
 Proof.
   intros v path i old new e c tx wuri Ht Htx Hc Hw.
-  eexists. split; [apply (replace_node_hit old new e [] c tx wuri Htx Hc Hw)|].
+  eexists. split; [apply (replace_node_hit old new e [] c tx wuri Htx Hc (is_text_tag_like _ Ht) Hw)|].
   split; [apply emit_kids_interleave; exact Ht|apply render_repl_toks].
 Qed.
 
@@ -298,17 +325,17 @@ Qed.
 (* 2. node-wise replacement inside an inline subtree                    *)
 (* ================================================================== *)
 
-(* ---------- replace_node, by cases on [hit] ---------- *)
+(* ---------- replace_node, by cases on [vhit] ---------- *)
 Lemma replace_node_cases old new e ks :
   replace_node old new (AE e ks) =
-    if hit old e then
+    if vhit old e then
       wuri <- of_opt KeyError (e_wuri e) ;;
       Ok (interleave (br_of e wuri)
             (map (fun l => AE (with_text e l) ks)
                  (split_nl (replace old new (ostr (e_text e))))))
     else ks' <- rkids old new ks ;; Ok [AE e ks'].
 Proof.
-  rewrite replace_node_AE. unfold hit.
+  rewrite replace_node_AE. unfold vhit, hit.
   destruct (e_text e) as [[|c tx]|]; reflexivity.
 Qed.
 
@@ -386,13 +413,13 @@ Proof.
 Qed.
 
 (* what "".join(itertext()) sees below an element after the replacement: a
-   text element that is hit is repeated once per line, each copy with its
+   text element (w:t, m:t) that is hit is repeated once per line, each copy with its
    (original) children and its tail; the w:br between them adds nothing *)
 Fixpoint itertext_inner_repl (old new : str) (t : anode) : str :=
   match t with
   | AX tl => ostr tl
   | AE e ks =>
-      if hit old e then
+      if vhit old e then
         concat (map (fun l => l ++ concat (map itertext_inner ks) ++ ostr (e_tail e))
                     (split_nl (replace old new (ostr (e_text e)))))
       else ostr (e_text e) ++ concat (map (itertext_inner_repl old new) ks) ++ ostr (e_tail e)
@@ -435,7 +462,7 @@ Proof.
                        concat (map itertext_inner ns) = itertext_inner_repl old new t)).
   - intros tl ns H. cbn in H. injection H as <-. cbn. apply app_nil_r.
   - intros e ks IH ns H. rewrite replace_node_cases in H. cbn [itertext_inner_repl].
-    destruct (hit old e).
+    destruct (vhit old e).
     + bind_inv H as wuri Ew. injection H as <-. apply itertext_interleave.
     + bind_inv H as ks' Ek. injection H as <-.
       destruct (rkids_inv _ _ _ _ Ek) as (nss & HF & ->).
@@ -499,6 +526,12 @@ Proof.
   apply str_eqb_eq. exact H4.
 Qed.
 
+Lemma repl_ok_vhit old e ks :
+  hit old e = true -> repl_ok old (AE e ks) = true -> vhit old e = true.
+Proof.
+  intros Hh H. destruct (repl_ok_hit _ _ _ Hh H) as (Ht & _). exact (vhit_text_tag _ _ Hh Ht).
+Qed.
+
 Lemma repl_ok_miss old e ks :
   hit old e = false -> repl_ok old (AE e ks) = true ->
   forallb (repl_ok old) ks = true
@@ -514,8 +547,9 @@ Proof.
   apply (anode_ind' (fun t => repl_ok old t = true -> exists ns, replace_node old new t = Ok ns)).
   - intros tl _. eexists. reflexivity.
   - intros e ks IH H. rewrite replace_node_cases. destruct (hit old e) eqn:Hh.
-    + destruct (repl_ok_hit _ _ _ Hh H) as (_ & _ & (w & Hw) & _). rewrite Hw. eexists. reflexivity.
-    + destruct (repl_ok_miss _ _ _ Hh H) as [Hks _].
+    + rewrite (repl_ok_vhit _ _ _ Hh H).
+      destruct (repl_ok_hit _ _ _ Hh H) as (_ & _ & (w & Hw) & _). rewrite Hw. eexists. reflexivity.
+    + rewrite (vhit_miss _ _ Hh). destruct (repl_ok_miss _ _ _ Hh H) as [Hks _].
       assert (G : exists nss, Forall2 (fun k ns => replace_node old new k = Ok ns) ks nss).
       { clear H. induction IH as [|k r Hk _ IHr]; [exists []; constructor|].
         cbn [forallb] in Hks. apply andb_true_iff in Hks. destruct Hks as [K1 K2].
@@ -538,7 +572,7 @@ Proof.
   apply (anode_ind' (fun t => forall ns, plain_inline t = true -> replace_node old new t = Ok ns ->
                                          forallb plain_inline ns = true)).
   - intros tl ns _ H. cbn in H. injection H as <-. reflexivity.
-  - intros e ks IH ns Hpl H. rewrite replace_node_cases in H. destruct (hit old e).
+  - intros e ks IH ns Hpl H. rewrite replace_node_cases in H. destruct (vhit old e).
     + bind_inv H as wuri Ew. injection H as <-.
       apply forallb_interleave; [apply plain_inline_br_of|].
       rewrite forallb_forall. intros x Hx. apply in_map_iff in Hx. destruct Hx as (l & <- & _).
@@ -587,7 +621,8 @@ Lemma named_replace old new u nm k ns :
 Proof.
   intros Ht Hb Hok H. destruct k as [e ks|tl].
   - rewrite replace_node_cases in H. destruct (hit old e) eqn:Hh.
-    + destruct (repl_ok_hit _ _ _ Hh Hok) as (_ & _ & _ & Hl).
+    + rewrite (repl_ok_vhit _ _ _ Hh Hok) in H.
+      destruct (repl_ok_hit _ _ _ Hh Hok) as (_ & _ & _ & Hl).
       bind_inv H as wuri Ew. injection H as <-.
       assert (N1 : is_elem_named u nm (AE e ks) = false).
       { cbn [is_elem_named]. rewrite Hl, Ht. apply andb_false_r. }
@@ -595,7 +630,8 @@ Proof.
       * cbn [br_of is_elem_named e_local]. rewrite Hb. apply andb_false_r.
       * rewrite forallb_forall. intros x Hx. apply in_map_iff in Hx. destruct Hx as (l & <- & _).
         apply negb_true_iff. exact N1.
-    + bind_inv H as ks' Ek. injection H as <-. cbn [filter is_elem_named].
+    + rewrite (vhit_miss _ _ Hh) in H.
+      bind_inv H as ks' Ek. injection H as <-. cbn [filter is_elem_named].
       destruct (ostr_eqb (e_uri e) u && str_eqb (e_local e) nm); repeat constructor.
   - cbn in H. injection H as <-. cbn. constructor.
 Qed.
@@ -804,14 +840,16 @@ Proof.
   - intros e ks IH Hpl Hnl Hok ns path i H.
     rewrite emit_repl_AE. rewrite replace_node_cases in H.
     destruct (hit old e) eqn:Hh.
-    + destruct (repl_ok_hit _ _ _ Hh Hok) as (Ht & -> & (w & Hw) & _).
+    + rewrite (repl_ok_vhit _ _ _ Hh Hok) in H.
+      destruct (repl_ok_hit _ _ _ Hh Hok) as (Ht & -> & (w & Hw) & _).
       rewrite Hw in H. cbn [of_opt bind] in H. injection H as <-.
       apply emit_kids_interleave. exact Ht.
     + destruct (repl_ok_miss _ _ _ Hh Hok) as [Hoks Hpr].
+      rewrite (vhit_miss _ _ Hh) in H.
       bind_inv H as ks' Ek. injection H as <-.
       destruct (rkids_inv _ _ _ _ Ek) as (nss & HF & ->).
       pose proof (replace_node_plain old new (AE e ks) [AE e (concat nss)] Hpl) as Hpl'.
-      rewrite replace_node_cases, Hh, Ek in Hpl'. specialize (Hpl' eq_refl).
+      rewrite replace_node_cases, (vhit_miss _ _ Hh), Ek in Hpl'. specialize (Hpl' eq_refl).
       cbn [forallb] in Hpl'. rewrite andb_true_r in Hpl'.
       destruct (no_link_AE _ _ Hnl) as [Hnh Hnks].
       pose proof (plain_inline_AE _ _ Hpl) as [_ Hpks].
@@ -1021,11 +1059,11 @@ Theorem replace_simple_par : forall v old new e ks,
 Proof.
   intros v old new e ks Hsp Hnl Hh Hok Hp.
   destruct (replace_node_total old new _ Hok) as [ns Hns].
-  rewrite replace_node_cases, Hh in Hns. bind_inv Hns as ks' Ek. injection Hns as <-.
+  rewrite replace_node_cases, (vhit_miss _ _ Hh) in Hns. bind_inv Hns as ks' Ek. injection Hns as <-.
   destruct (rkids_inv _ _ _ _ Ek) as (nss & HF & ->).
   destruct (repl_ok_miss _ _ _ Hh Hok) as [Hoks Hpr].
   cbn [simple_par] in Hsp. apply andb_true_iff in Hsp. destruct Hsp as [Ht Hpks].
-  exists (concat nss). split; [rewrite replace_node_cases, Hh, Ek; reflexivity|].
+  exists (concat nss). split; [rewrite replace_node_cases, (vhit_miss _ _ Hh), Ek; reflexivity|].
   assert (Hpl : forallb plain_inline (concat nss) = true).
   { rewrite forallb_concat. clear - HF Hpks.
     induction HF as [|k ns r nss Hk _ IH]; [reflexivity|].
@@ -1309,7 +1347,21 @@ Section Examples.
   Definition ex_text : str :=
     s2l "hello there" ++ [10] ++ s2l "you" ++ [9] ++ s2l "there" ++ [10] ++ s2l "you".
   Definition ex_flat : str := s2l "hello thereyouthereyou".
+  (* <w:r><w:delText>world</w:delText><w:instrText>world</w:instrText><w:t>world</w:t></w:r> *)
+  Definition ex_hidden_run : anode :=
+    view (ex_el "r" None [ex_el "delText" (Some "world") []; ex_el "instrText" (Some "world") [];
+                          ex_el "t" (Some "world") []]).
+  Definition ex_hidden_out : anode :=
+    view (ex_el "r" None [ex_el "delText" (Some "world") []; ex_el "instrText" (Some "world") [];
+                          ex_el "t" (Some "there") []; ex_el "br" None []; ex_el "t" (Some "you") []]).
 End Examples.
+
+(* fix D33: deleted text and field codes keep the needle (no w:br appears beside
+   them); the w:t next to them is replaced *)
+Example ex_invisible_untouched :
+  needle_free ex_old ex_hidden_run = false
+  /\ replace_node ex_old ex_new ex_hidden_run = Ok [ex_hidden_out].
+Proof. split; vm_compute; reflexivity. Qed.
 
 (* the example satisfies every hypothesis of emit_replace_nodewise and of
    emit_replace_text_leaves *)
@@ -1604,6 +1656,7 @@ Print Assumptions C16_reextract_partial.
 Print Assumptions ex_hypotheses.
 Print Assumptions ex_nodewise.
 Print Assumptions ex_replace_all.
+Print Assumptions ex_invisible_untouched.
 Print Assumptions view_t_named.
 Print Assumptions emit_replace_nodewise_counterexample.
 Print Assumptions run_formatting_changes_without_pr_hypothesis.
